@@ -607,11 +607,40 @@ def _rewrite_find(body, i, verdicts, orig_of, start_chars):
                                                             ast.Store)}
         if ename in names or 'pos' in stores:
             last = j
+    # ... and the slices of the text taken right after it
+    for j in range(last + 1, len(body)):
+        stj = body[j]
+        if isinstance(stj, ast.Assign) and any(
+                isinstance(x, ast.Subscript) and isinstance(
+                    x.value, ast.Name) and x.value.id == 'text'
+                and isinstance(x.slice, ast.Slice)
+                for x in ast.walk(stj.value)) and not any(
+                    isinstance(x, ast.Call) and isinstance(
+                        x.func, ast.Attribute) and x.func.attr in (
+                            'find', 'index') for x in ast.walk(stj.value)):
+            last = j
+        else:
+            break
     region = body[i + 1:last + 1]
+    # cursor arithmetic noted down just before the search
+    # ("start = pos - 1") belongs to the region's environment
+    pre_env = {}
+    for j in range(i - 1, -1, -1):
+        pst = body[j]
+        if isinstance(pst, ast.Assign) and len(pst.targets) == 1 and \
+                isinstance(pst.targets[0], ast.Name) and \
+                pst.targets[0].id not in ('pos', 'size', 'char', 'text'):
+            try:
+                pre_env[pst.targets[0].id] = _lin(pst.value, base)
+                continue
+            except (AnalysisError, _NeedCase, KeyError, TypeError):
+                break
+        break
     # the lexeme variable: the string-valued name assigned in the region
     results = {}
     for found in ((True, ) if raising else (True, False)):
         env = dict(base)
+        env.update(pre_env)
         env[ename] = {'e': 1} if found else {1: -1}
         senv = {}
         _exec_region(region, env, senv, found)
